@@ -255,6 +255,8 @@ def instr_tokens(rng, kw, names, arity=None, nwords=None, suffix=None):
         nums = [d] + [round(rng.uniform(0.01, 0.09), 3)][:n - 1]
     elif kw == 'DFIX':
         nums = [round(rng.uniform(1.1, 1.9), 3)] + [round(rng.uniform(0.011, 0.05), 3)][:n - 1]
+        if rng.random() < 0.15:
+            nums[0] = -round(rng.uniform(2.5, 3.2), 3)      # a negative d is the anti-bumping form of DFIX
     elif kw == 'NCSY':
         nums = [rng.randint(1, 4)] + distinct_numbers(rng, n - 1)
     elif kw == 'MPLA':
@@ -356,7 +358,7 @@ def gen_file(rng, natoms=None, ninstr=None, with_qpeaks=True, restraints=True, k
             nums = [0] * len(nums)
         add(toks, 'instr', kw=kw, nums=nums, words=ws)
     REMS = [['REM', 'target', 'distance', 'd(C-C)', '=', '1.54'], ['REM', 'a', 'plain', 'remark'], ['REM', 'R1', '=', '0.0400', 'for', '1234', 'Fo', '>', '4sig(Fo)'],
-            ['REM'], ['REM', 'SADI', 'C1', 'C2', '=']]
+            ['REM'], ['REM', 'SADI', 'C1', 'C2', '='], ['REM', 'C1B', '1', '0.31', '0.36', '0.33', '-21.0', '0.03'], ['REM', '2', '1', '0.5', '0.5', '0.5', '11.0', '0.05']]
     for _ in range(rng.choice([0, 0, 1, 2])):
         add(rng.choice(REMS), 'rem')
     nfv = rng.randint(3, 12)     # the occupation codes used below refer to free variables 2 and 3
